@@ -399,7 +399,11 @@ def polynomial_fit(
     # Check if the second order coefficient is positive and eventually
     # change to a polynomial fit of order 1 to avoid to overestimate
     # the mean number of signal events for the chosen ts quantile.
-    if deg == 2 and params[0] > 0:
+    # Do the same if the fitted parabola does not reach p_thr at all, i.e. its
+    # discriminant is negative. Otherwise the square root below would be NaN.
+    if deg == 2 and (
+            (params[0] > 0) or
+            (params[1]**2 - 4*params[0]*(params[2] - p_thr) < 0)):
         deg = 1
         (params, cov) = np.polyfit(ns, p, deg, w=p_weight, cov=True)
 
